@@ -20,6 +20,20 @@ Anchors in /repo:
     `service.resource_messages|sort(attribute="resource_type_full_path", case_sensitive=true)
                               |sort(attribute="resource_type")`  → `resourceHelperOrder`          (S2; injective first key since the F4 repair)
   `method.retry.retryable_exceptions|sort(attribute='__name__')` → `retryOrder`                   (S2, key injective)
+  gapic/schema/api.py: API.subpackages (`sorted({…})`) and
+    gapic/generator/generator.py: _render_template's `%sub` walk → `subpackageNames`, `subpackageOrder`, `subWalk` (S1)
+  gapic/schema/wrappers.py: Service.oauth_scopes             → `oauthScopes`                       (S5, ordered input)
+
+NOT modelled (reached only through the inventory classification + the multi-process byte comparison):
+  * Jinja's evaluation of the templates themselves, `dictsort`, `unique`, `map`/`join` filters;
+  * `Proto.python_modules` (a sorted set of `imp.Import` tuples; covered generically by
+    `sort_total_order_perm_invariant`, its `__eq__`/`__hash__` mismatch on `alias` is not modelled);
+  * snippet index / gapic_metadata JSON (`json.dumps(sort_keys=True)`, lists sorted from ordered inputs: S5);
+  * `Generator.get_response`'s OrderedDict of files beyond the sub-package walk, `Options.build`
+    (option parsing order), samplegen's validator sets (S3), `API.get_extended_operations_services`
+    (S2 by service name; exercised by generated compute-style APIs, no instance theorem);
+  * everything outside set/sort/impurity sites is a function of ordered inputs by Python's semantics
+    (insertion-ordered dicts, lists), which is taken as given.
 -/
 namespace GapicModel.Model.Determinism
 
@@ -186,6 +200,39 @@ def exceptionNames : List String :=
 
 /-- `method.retry.retryable_exceptions|sort(attribute='__name__')` -/
 def retryOrder (s : List Str) : List Str := jinjaSort s
+
+/-! ### S1 instance: sub-packages and the order of the response's files -/
+
+/-- the set comprehension of `API.subpackages`:
+`{p.meta.address.subpackage[0] for p in protos if len(sp) > level and sp[:level] == view}` as the
+list of candidates in proto order (NB `[0]`, not `[level]`, exactly as the source has it). -/
+def subpackageNames (view : List Str) (subs : List (List Str)) : List Str :=
+  subs.filterMap fun sp =>
+    if view.length < sp.length ∧ sp.take view.length = view then sp.head? else none
+
+/-- keys of the OrderedDict `API.subpackages` when the set is iterated in order `s`: `sorted(set)`.
+`Generator._render_template` walks `api_schema.subpackages.values()` for every `%sub` template and
+appends the rendered files in that order, so this is also the order in which the sub-packages'
+files appear in `CodeGeneratorResponse.file`. -/
+def subpackageOrder (s : List Str) : List Str := sortedStr s
+
+/-- `_render_template` for one `%sub` template: the files of every sub-package (in
+`subpackages.values()` order), then the files of the view itself (`answer.update` keeps first
+positions). -/
+def subWalk (subs : List Str) (filesOf : Str → List Str) (own : List Str) : List Str :=
+  subs.flatMap filesOf ++ own
+
+/-! ### S5: ordered inputs -/
+
+def joinWith (sep : Char) : List Str → Str
+  | [] => []
+  | [l] => l
+  | l :: ls => l ++ sep :: joinWith sep ls
+
+/-- `Service.oauth_scopes`: `tuple(i.strip() for i in option.split(",") if i)` — the emptiness test
+comes BEFORE the strip, as in the source. -/
+def oauthScopes (isSpace : Char → Bool) (opt : Str) : List Str :=
+  ((splitOn ',' opt).filter fun i => !i.isEmpty).map (strip isSpace)
 
 /-! ### The pipeline: a response is a function of the outcomes of its sites -/
 
